@@ -645,6 +645,9 @@ static void perform(vh::Trace& tr, Store& s, const Op& op) {
   if (op.kind == GETSINO || op.kind == GETVIEW || op.kind == GETSEGV || op.kind == GETSEGS) j.arr("shape", shape);
   observe(j, s);
   tr.emit(j);
+#if defined(__SANITIZE_ADDRESS__)
+  tr.flush();      // a sanitizer report ends the process at once: keep every completed line
+#endif
 }
 
 // ------------------------------------------------------------------ random histories
